@@ -9,7 +9,7 @@ import sys
 from concurrent.futures import ThreadPoolExecutor
 
 V = os.path.dirname(os.path.dirname(os.path.abspath(__file__)))
-REPO = "/repo"
+REPO = os.environ.get("PYPIKA_REPO", "/repo")   # a scratch checkout may stand in for /repo (the checks honour the same variable)
 PIDS = ["C%02d" % i for i in range(1, 21)]
 
 
@@ -54,7 +54,7 @@ def main():
         meta["runs"] = {
             "demonstration_on_clean_tree_exit": clean_rc, "demonstration_with_change_exit": mut_rc,
             "demonstration_output_with_change": mut_out,
-            "how": "git -C /repo apply seeded/%s/patch.diff; ./check <id> (quick tier, seed 0) for every property; git -C /repo checkout -- ." % mid,
+            "how": "git -C %s apply seeded/%s/patch.diff; ./check <id> (quick tier, seed 0) for every property; git -C %s checkout -- ." % (REPO, mid, REPO),
             "check_exit_codes": caught,
             "violation_lines": {pid: l[0] for pid, rc, l in results if l},
             "caught_by": [pid for pid in PIDS if caught[pid] == 1],
@@ -66,6 +66,8 @@ def main():
         print(mid, "demo clean/changed = %d/%d" % (clean_rc, mut_rc), "caught by", meta["runs"]["caught_by"], flush=True)
     # leave the generated tables matching the clean tree
     sh("/venv/bin/python -m harness.extract", cwd=V)
+    print("missed by own check:", [m for m in ids if os.path.isdir(os.path.join(V, "seeded", m)) and
+                                     json.load(open(os.path.join(V, "seeded", m, "meta.json")))["property"] not in matrix.get(m, [])])
 
 
 main()
